@@ -107,6 +107,7 @@ func (p *Parser) parseGeneric(sb align.SeqBag) (err error) {
 	p.unscan()
 	var curseq bytes.Buffer
 	curname := ""
+	seenname := false // an entry has been opened by a ">" line (its name may be empty once spaces are removed)
 	firstSpaces := regexp.MustCompile("^( +)")
 	for tok != EOF {
 		tok, lit = p.scanIgnoreEndOfLine()
@@ -122,11 +123,12 @@ func (p *Parser) parseGeneric(sb align.SeqBag) (err error) {
 					return
 				}
 				curseq.Reset()
-			} else if curname != "" {
+			} else if seenname {
 				err = errors.New("A Fasta entry has a name but no sequence (" + curname + ")")
 				return
 			}
 			curname = firstSpaces.ReplaceAllString(lit, "")
+			seenname = true
 		case IDENTIFIER:
 			curseq.WriteString(strings.Replace(lit, " ", "", -1))
 		case EOF:
@@ -134,7 +136,7 @@ func (p *Parser) parseGeneric(sb align.SeqBag) (err error) {
 				if err = sb.AddSequence(curname, curseq.String(), ""); err != nil {
 					return
 				}
-			} else if curname != "" {
+			} else if seenname {
 				err = errors.New("A Fasta entry has a name but no sequence (" + curname + ")")
 				return
 			}
